@@ -125,7 +125,8 @@ class TLCResult:
 def tlc(workdir, module, lib, workers=1, cfg=None, extra=(), timeout=1800, heap="4g", simulate=None, depth=None, seed=None, dfs=False, coverage=False):
     """run TLC on workdir/module.tla; lib is 'num_native' or 'num_big' (the Num backend)"""
     meta = fresh(os.path.join(workdir, "meta-" + module + ("-" + str(simulate) if simulate else "")))
-    cmd = ["timeout", str(timeout), "java", "-Xss512m", "-Xmx" + heap, "-XX:+UseParallelGC",
+    jtmp = os.path.join(workdir, "jtmp"); os.makedirs(jtmp, exist_ok=True)   # TLC's scratch directories stay out of /tmp
+    cmd = ["timeout", str(timeout), "java", "-Xss512m", "-Xmx" + heap, "-XX:+UseParallelGC", "-Djava.io.tmpdir=" + jtmp,
            "-DTLA-Library=" + os.path.join(SPEC, lib)]
     if dfs:
         cmd.append("-Dtlc2.tool.queue.IStateQueue=StateDeque")
@@ -184,7 +185,10 @@ def apalache_inductive(pid, module, timeout=900):
     for init, length in (("Init", "0"), ("IndInit", "1")):
         cmd = ["timeout", str(timeout), "apalache-mc", "check", "--out-dir=" + os.path.join(wd, "out"), "--cinit=CInit", "--init=" + init,
                "--inv=IndInv", "--length=" + length, module + ".tla"]
-        p = subprocess.run(cmd, cwd=wd, stdout=subprocess.PIPE, stderr=subprocess.STDOUT, text=True)
+        env = dict(os.environ)
+        jtmp = os.path.join(wd, "jtmp"); os.makedirs(jtmp, exist_ok=True)
+        env["JVM_ARGS"] = (env.get("JVM_ARGS", "") + " -Djava.io.tmpdir=" + jtmp).strip()   # scratch stays out of /tmp
+        p = subprocess.run(cmd, cwd=wd, stdout=subprocess.PIPE, stderr=subprocess.STDOUT, text=True, env=env)
         if p.returncode != 0 or "The outcome is: NoError" not in p.stdout:
             sys.stdout.write(p.stdout[-3000:])
             raise Inconclusive("Apalache did not establish the inductive invariant of %s (--init=%s, exit %d)" % (module, init, p.returncode))
@@ -262,7 +266,8 @@ def validate_trace(pid, module, trace_path, group_key=None, nshards=8, lib="num_
             c = c.replace("KNOWN = {}", "KNOWN = {%s}" % ", ".join('"%s"' % i for i in open_ids))
             open(cfgp, "w").write(c)
         meta = os.path.join(d, "meta")
-        cmd = ["timeout", str(timeout), "java", "-Xss512m", "-Xmx" + heap, "-XX:+UseParallelGC",
+        jtmp = os.path.join(d, "jtmp"); os.makedirs(jtmp, exist_ok=True)
+        cmd = ["timeout", str(timeout), "java", "-Xss512m", "-Xmx" + heap, "-XX:+UseParallelGC", "-Djava.io.tmpdir=" + jtmp,
                "-DTLA-Library=" + os.path.join(SPEC, lib), "-cp", JAR, "tlc2.TLC", "-workers", "1",
                "-metadir", meta, "-nowarning", module]
         f = open(os.path.join(d, "tlc.out"), "w")
